@@ -429,19 +429,21 @@ Fixpoint p_command (fuel : nat) (s : pst) {struct fuel} : pres stmt :=
         let s2 := next s1 in
         if has_routine s2 (ctext s2) || is_executable (ctype s2) || is_type s2 TT_BEGIN || is_type s2 TT_WITH then
           (* a routine *)
-          if has_routine s2 name then perr s2
+          if has_routine s2 name || (match get_macro s2 name with Some _ => true | None => false end) then perr s2
           else if p_in_routine s2 then perr s2
           else
-            let s3 := add_global (set_routine_flag s2 true) name (SyRoutine []) in
+            (* the body of a routine is not part of the loops around its definition *)
+            let s3 := add_global (set_loops (set_routine_flag s2 true) 0) name (SyRoutine []) in
             let! (params, s4) := (if is_type s3 TT_WITH then p_params f (next s3) [] true else POk [] s3) in
             let s5 := add_global s4 name (SyRoutine params) in
             let! (body, s6) := p_command_seq f s5 in
-            POk (SDefineRoutine name params body) (set_routine_flag s6 false)
+            POk (SDefineRoutine name params body) (set_loops (set_routine_flag s6 false) (p_loops s2))
         else
           (* a macro *)
           match get_macro s2 name with
           | Some _ => perr s2
           | None =>
+              if has_routine s2 name then perr s2 else
               match current_constant s2 with
               | inl (CLit l) => POk (SDefineMacro name (MLit l)) (next (add_global s2 name (SyMacro (lit_value l))))
               | inl (CTimeLit txt p) => POk (SDefineMacro name (MTime txt p)) (next (add_global s2 name (SyMacro (VTime p))))
